@@ -49,11 +49,35 @@ var c01Files = []string{
 	"internal/ledger/genesis/genesis.go",
 	"pkg/vm/boltvm/bolt_stub.go",
 	"pkg/proof/proof_pool.go",
+	// beyond the anchors: the remaining built-in contracts a transaction can reach (a map-order
+	// leak into a receipt there breaks C01 just the same)
+	"internal/executor/contracts/appchain_manager.go",
+	"internal/executor/contracts/role.go",
+	"internal/executor/contracts/rule_manager.go",
+	"internal/executor/contracts/node_manager.go",
+	"internal/executor/contracts/dapp_manager.go",
+	"internal/executor/contracts/proposal_strategy.go",
+	"internal/executor/contracts/inter_broker.go",
+	"internal/executor/contracts/common.go",
+	"internal/executor/contracts/store.go",
+	"internal/executor/contracts/service_registry.go",
+	"internal/executor/contracts/service_resolver.go",
+	"internal/executor/contracts/trust_chain.go",
+	"internal/executor/contracts/asset_manager.go",
+	"internal/ledger/simple_ledger.go",
+	"internal/ledger/account_cache.go",
+	"internal/ledger/state_changer.go",
+	"internal/ledger/block_journal.go",
+	"pkg/vm/boltvm/boltvm.go",
+	"pkg/vm/boltvm/register.go",
 }
 
 // range operands whose type the resolver cannot determine, accepted with a reason
 // key: file|function|operand text
-var rangeUnknownWhitelist = map[string]string{}
+var rangeUnknownWhitelist = map[string]string{
+	"internal/executor/contracts/asset_manager.go|EthHeaderManager.unpackEscrowsLock|receipt.Logs": "go-ethereum core/types.Receipt.Logs is a slice ([]*types.Log); go-ethereum is not loaded by the resolver",
+	"internal/ledger/account_cache.go|AccountCache.queryState|states.Keys()":                        "hashicorp/golang-lru Cache.Keys() returns a slice ordered oldest to newest, not a map",
+}
 
 type srcModule struct {
 	prefix string // import path prefix
